@@ -2,6 +2,12 @@
   C19 — The software demodulator recovers cleanly modulated frames.
 -/
 import PyModeS.Model.Demod
+import PyModeS.Properties.C01
+import PyModeS.Proofs.Demod.Loop
+import PyModeS.Proofs.Demod.Clean
+import PyModeS.Proofs.Demod.CleanEval
+import PyModeS.Proofs.Demod.SnrBand
+import PyModeS.Proofs.Demod.CleanMulti
 namespace PyModeS.C19
 
 /-- the acceptance test lets a DF17 frame through only with a zero checksum -/
@@ -12,5 +18,236 @@ theorem checkMsg_df17_crc0 (m : Msg) (h17 : df m = 17) (hok : checkMsg m = true)
   · simp [hl] at hok
     exact ⟨hl, hok⟩
   · simp [hl] at hok
+
+/-! ### 1. No DF17 frame with a non-zero checksum is ever returned (unconditional) -/
+
+/-- `processBuffer` unfolded: the noise floor is the minimum of the old one and the quietest
+    200-sample window, the messages are those of `demodLoop` started at 0 with `buf.size + 1` fuel -/
+theorem processBuffer_val (noiseFloor : Rat) (buf : Array Rat) (msgs : List Msg) (nf : Rat) (rest : Nat)
+    (h : processBuffer noiseFloor buf = .val (msgs, nf, rest)) :
+    ∃ c i, calcNoise buf = .val c ∧ nf = min c noiseFloor ∧
+      demodLoop buf ((3162 : Rat) / 1000 * nf) (buf.size + 1) 0 [] = .val (msgs, i) ∧
+      rest = buf.size - i := by
+  unfold processBuffer at h
+  cases hc : calcNoise buf with
+  | rte => rw [hc] at h; simp at h
+  | exc => rw [hc] at h; simp at h
+  | val c =>
+    rw [hc] at h
+    simp only [Res.bind_val] at h
+    cases hd : demodLoop buf ((3162 : Rat) / 1000 * min c noiseFloor) (buf.size + 1) 0 [] with
+    | rte => rw [hd] at h; simp at h
+    | exc => rw [hd] at h; simp at h
+    | val r =>
+      obtain ⟨out, i⟩ := r
+      rw [hd] at h
+      simp only [Res.bind_val, Res.pure_eq, Res.val.injEq, Prod.mk.injEq] at h
+      obtain ⟨h1, h2, h3⟩ := h
+      subst h1 h2 h3
+      exact ⟨c, i, rfl, rfl, hd, rfl⟩
+
+/-- every returned message passed `_check_msg` -/
+theorem processBuffer_checkMsg (noiseFloor : Rat) (buf : Array Rat) (msgs : List Msg) (nf : Rat) (rest : Nat)
+    (h : processBuffer noiseFloor buf = .val (msgs, nf, rest)) : ∀ m ∈ msgs, checkMsg m = true := by
+  obtain ⟨c, i, _, _, hd, _⟩ := processBuffer_val noiseFloor buf msgs nf rest h
+  exact Demod.demodLoop_checkMsg buf _ _ _ _ _ _ (by simp) hd
+
+/-- **never_bad_df17** — for every previous noise floor and every sample buffer, whatever
+    `_process_buffer` returns, each returned message passed `_check_msg`; if its DF is 17 it has
+    28 hex digits, `crc(msg)` is 0, and (by C01) the true remainder of the frame polynomial
+    modulo the Mode S generator is 0. -/
+theorem never_bad_df17 (noiseFloor : Rat) (buf : Array Rat) (msgs : List Msg) (nf : Rat) (rest : Nat)
+    (h : processBuffer noiseFloor buf = .val (msgs, nf, rest)) :
+    ∀ m ∈ msgs, checkMsg m = true ∧
+      (df m = 17 → m.length = 28 ∧ crc m false = 0 ∧ Spec.remH (hex2binM m) = 0) := by
+  intro m hm
+  have hok := processBuffer_checkMsg noiseFloor buf msgs nf rest h m hm
+  refine ⟨hok, fun h17 => ?_⟩
+  obtain ⟨hl, hc⟩ := checkMsg_df17_crc0 m h17 hok
+  refine ⟨hl, hc, ?_⟩
+  rw [← PyModeS.C01.crc_eq_remainder_msg m (by omega) (by omega)]
+  exact hc
+
+/-! ### 2. The loop consumes the whole buffer; the modelled fuel is never the reason it stops -/
+
+/-- `demodLoop` with the fuel `processBuffer` gives it stops only by `i ≥ len(buffer)` -/
+theorem demodLoop_terminates (buf : Array Rat) (minAmp : Rat) (fuel i : Nat) (out res : List Msg) (i' : Nat)
+    (hf : buf.size < fuel + i) (h : demodLoop buf minAmp fuel i out = .val (res, i')) :
+    buf.size ≤ i' ∧ i ≤ i' :=
+  ⟨Demod.demodLoop_terminates buf minAmp fuel i out res i' hf h,
+   Demod.demodLoop_index_ge buf minAmp fuel i out res i' h⟩
+
+/-- any larger fuel gives the same result: the fuel parameter is an artefact of the model only -/
+theorem demodLoop_fuel_irrelevant (buf : Array Rat) (minAmp : Rat) (i : Nat) (out : List Msg) (extra : Nat) :
+    demodLoop buf minAmp (buf.size + 1 + extra) i out = demodLoop buf minAmp (buf.size + 1) i out :=
+  Demod.demodLoop_fuel_irrelevant buf minAmp (buf.size + 1) i out extra (by omega)
+
+/-- **processBuffer_rest** — after a successful call the remaining buffer `signal_buffer[i:]` is
+    empty (the final index is `≥ len(buffer)`), and the new noise floor is the minimum of the old
+    one and the measured one (so it never increases). -/
+theorem processBuffer_rest (noiseFloor : Rat) (buf : Array Rat) (msgs : List Msg) (nf : Rat) (rest : Nat)
+    (h : processBuffer noiseFloor buf = .val (msgs, nf, rest)) :
+    rest = 0 ∧ nf ≤ noiseFloor ∧
+    ∃ c i, calcNoise buf = .val c ∧ nf = min c noiseFloor ∧ buf.size ≤ i ∧ rest = buf.size - i ∧
+      demodLoop buf ((3162 : Rat) / 1000 * nf) (buf.size + 1) 0 [] = .val (msgs, i) := by
+  obtain ⟨c, i, hc, hnf, hd, hr⟩ := processBuffer_val noiseFloor buf msgs nf rest h
+  have hi := Demod.demodLoop_terminates buf _ _ _ _ _ _ (by omega) hd
+  refine ⟨by omega, ?_, c, i, hc, hnf, hi, hr, hd⟩
+  rw [hnf]; exact Std.min_le_right
+
+/-- the hypothesis of `never_bad_df17` / `processBuffer_rest` is met: a quiet 200-sample buffer is
+    processed to no message, noise floor 1/20, nothing left (and a buffer shorter than one 200-sample
+    window makes `_calc_noise` raise: `min([])`) -/
+example : processBuffer 1 (List.replicate 200 (1/20 : Rat)).toArray = .val ([], 1/20, 0) ∧
+    processBuffer 1 (List.replicate 100 (1/20 : Rat)).toArray = .exc := by decide +kernel
+
+/-! ### 3. A cleanly modulated frame is recovered
+
+  Property, full statement: "For any sequence of valid Mode S frames … pulse-position modulated at
+  2 samples per microsecond behind the standard 8 us preamble, with pulse amplitude between 0.3 and
+  1.4, at least 10 dB above the noise floor and separated by at least one frame length of noise,
+  the sample-buffer processor returns exactly those frames, in order, as upper-case hex of the
+  right length."
+
+  What is proved (`…_partial`): the same conclusion under a STRONGER noise hypothesis than
+  "10 dB": every non-pulse sample (lead-in, low half-bits, gaps) is below `a/5` (13.98 dB below
+  the pulse amplitude `a`; the slicer's threshold is `max(frame_pulses) * 0.2`) and below `1/5`
+  (a noise sample can then never pass the preamble test `|x − 1| ≤ 0.8`).  What is missing is the
+  band between 10 dB and 14 dB — and it cannot be supplied: `snr_10dB_insufficient` evaluates the
+  model on a buffer that meets the property's wording with 10.46 dB and loses the frame
+  (recorded open finding C19-snr-10-14dB).  Everything else of the statement is covered, with
+  margins: amplitude 0.2 … 1.8, any previous noise floor, gaps of 114 samples instead of 224. -/
+
+open PyModeS.Demod (modulate preambleSamples ppm)
+
+/-- the modulator, spelled out: 16 preamble samples (`a` where `Tables.rtlPreamble` has 1, the low
+    sample `lo k` elsewhere), then per bit `1 ↦ (a, low)`, `0 ↦ (low, a)`; `lo` is indexed by the
+    sample offset inside the transmission -/
+theorem modulate_def (a : Rat) (lo : Nat → Rat) (bits : Bits) :
+    modulate a lo bits = preambleSamples a lo ++ ppm a lo 16 bits ∧
+    preambleSamples a lo = (List.range 16).map (fun k => if Tables.rtlPreamble.getD k 0 = 1 then a else lo k) ∧
+    (∀ k, ppm a lo k [] = []) ∧
+    (∀ k b bs, ppm a lo k (b :: bs) = (if b then [a, lo (k + 1)] else [lo k, a]) ++ ppm a lo (k + 2) bs) :=
+  ⟨rfl, rfl, fun _ => rfl, fun _ _ _ => rfl⟩
+
+theorem rtl_tables : Tables.rtlPreamble = [1, 0, 1, 0, 0, 0, 0, 1, 0, 1, 0, 0, 0, 0, 0, 0] ∧
+    Tables.rtlPbits = 8 ∧ Tables.rtlFbits = 112 ∧ Tables.rtlThAmpDiff = 4 / 5 ∧
+    Tables.rtlSamplesPerMicrosec = 2 :=
+  ⟨Demod.rtlPreamble_eq, Demod.rtlPbits_eq, Demod.rtlFbits_eq, Demod.rtlThAmpDiff_eq,
+    Demod.rtlSamplesPerMicrosec_eq⟩
+
+/-- the modulated preamble passes `_check_preamble` (amplitude 0.2 … 1.8, lows within ±0.8) -/
+theorem checkPreamble_modulated (a : Rat) (lo : Nat → Rat) (ha : 1 / 5 ≤ a ∧ a ≤ 9 / 5)
+    (hlo : ∀ k, k < 16 → -(4 / 5) ≤ lo k ∧ lo k ≤ 4 / 5) :
+    checkPreamble (preambleSamples a lo) = true :=
+  Demod.checkPreamble_modulated a lo ha hlo
+
+/-- the slicer reads back exactly the modulated bits and stops at the first quiet pair (or at the
+    end of the window): any threshold `thr ≤ a` above all low samples, at most 112 bits -/
+theorem sliceBits_modulated (a thr : Rat) (lo : Nat → Rat) (k : Nat) (bits : Bits) (tl : List Rat)
+    (hlen : bits.length ≤ 112) (hthr : thr ≤ a) (hlo : ∀ k, lo k < thr)
+    (htl : ∀ x ∈ tl.take 2, x < thr) :
+    sliceBits (ppm a lo k bits ++ tl) thr 113 0 [] = (bits, 2 * bits.length) :=
+  Demod.sliceBits_modulated a thr lo k bits tl hlen hthr hlo htl
+
+/-- a frame accepted by `_check_msg` is reproduced digit for digit by `bin2hex` of its bits
+    (upper case, right length: DF ≥ 4 makes the leading digit non-zero) -/
+theorem bin2hex_roundtrip (m : Msg) (hup : ∀ c ∈ m, c ∈ "0123456789ABCDEF".toList)
+    (hok : checkMsg m = true) : bin2hexNoPad (hex2binM m) = m ∧ (m.length = 14 ∨ m.length = 28) :=
+  ⟨Demod.bin2hexNoPad_hex2binM_of_checkMsg m hup hok, (Demod.checkMsg_facts m hok).2⟩
+
+/-- **clean_signal_recovered_partial** — ONE frame.  `m` is an upper-case hex frame that
+    `_check_msg` accepts (DF 17 with zero CRC remainder / DF 20, 21 — 28 digits; DF 4, 5, 11 — 14
+    digits), modulated with pulse amplitude `a ∈ [0.3, 1.4]` behind ≥ 200 samples of lead-in and
+    followed by any amount of noise; every non-pulse sample is `< a/5` and `< 1/5` (lows inside the
+    transmission also `≥ 0`).  Then for EVERY previous noise floor `nf0`, `_process_buffer`
+    returns exactly `[m]`, the new noise floor `min(c, nf0)` (`c` = `_calc_noise`), and an empty
+    remaining buffer.
+    Partial w.r.t. the property only in the noise hypothesis (14 dB instead of 10 dB), see the
+    section header and `snr_10dB_insufficient`. -/
+theorem clean_signal_recovered_partial (nf0 a : Rat) (lo : Nat → Rat) (pre post : List Rat) (m : Msg)
+    (hup : ∀ c ∈ m, c ∈ "0123456789ABCDEF".toList) (hok : checkMsg m = true)
+    (ha : 3 / 10 ≤ a ∧ a ≤ 14 / 10)
+    (hlo : ∀ k, 0 ≤ lo k ∧ lo k < a / 5)
+    (hpre : ∀ x ∈ pre, x < a / 5 ∧ x < 1 / 5) (hpost : ∀ x ∈ post, x < a / 5 ∧ x < 1 / 5)
+    (hprelen : 200 ≤ pre.length) :
+    ∃ c, calcNoise (pre ++ modulate a lo (hex2binM m) ++ post).toArray = .val c ∧
+      processBuffer nf0 (pre ++ modulate a lo (hex2binM m) ++ post).toArray =
+        .val ([m], min c nf0, 0) :=
+  Demod.clean_signal_recovered_c19 nf0 a lo pre post m hup hok ha hlo hpre hpost hprelen
+
+/-- the same on bit strings with the weakest hypotheses found: any `≤ 112` bits whose `bin2hex`
+    passes `_check_msg`, amplitude 0.2 … 1.8, lows `≥ −0.8` -/
+theorem clean_bits_recovered_partial (nf0 a : Rat) (lo : Nat → Rat) (pre post : List Rat) (bits : Bits)
+    (hlen : bits.length ≤ 112) (hok : checkMsg (bin2hexNoPad bits) = true)
+    (ha : 1 / 5 ≤ a ∧ a ≤ 9 / 5) (hlo : ∀ k, -(4 / 5) ≤ lo k ∧ lo k < a / 5)
+    (hpre : ∀ x ∈ pre, x < a / 5 ∧ x < 1 / 5) (hpost : ∀ x ∈ post, x < a / 5 ∧ x < 1 / 5)
+    (hprelen : 200 ≤ pre.length) :
+    ∃ c, calcNoise (pre ++ modulate a lo bits ++ post).toArray = .val c ∧
+      processBuffer nf0 (pre ++ modulate a lo bits ++ post).toArray =
+        .val ([bin2hexNoPad bits], min c nf0, 0) :=
+  Demod.clean_bits_recovered nf0 a lo pre post bits hlen hok ha hlo hpre hpost hprelen
+
+/-- **clean_frames_recovered_partial** — ANY NUMBER of frames (one shared amplitude and low-sample
+    pattern; see `clean_frames_recovered_multi_partial` for per-frame amplitudes): each
+    `(m, gap)` is a valid upper-case frame followed by ≥ 114 samples of noise (`< a/5`, `< 1/5`).
+    The frames come back exactly, in order. -/
+theorem clean_frames_recovered_partial (nf0 a : Rat) (lo : Nat → Rat) (pre : List Rat)
+    (frames : List (Msg × List Rat))
+    (ha : 3 / 10 ≤ a ∧ a ≤ 14 / 10)
+    (hlo : ∀ k, 0 ≤ lo k ∧ lo k < a / 5)
+    (hpre : ∀ x ∈ pre, x < a / 5 ∧ x < 1 / 5) (hprelen : 200 ≤ pre.length)
+    (hframes : ∀ f ∈ frames, (∀ c ∈ f.1, c ∈ "0123456789ABCDEF".toList) ∧ checkMsg f.1 = true ∧
+      114 ≤ f.2.length ∧ ∀ x ∈ f.2, x < a / 5 ∧ x < 1 / 5) :
+    ∃ c, calcNoise (pre ++ (frames.flatMap fun f => modulate a lo (hex2binM f.1) ++ f.2)).toArray = .val c ∧
+      processBuffer nf0 (pre ++ (frames.flatMap fun f => modulate a lo (hex2binM f.1) ++ f.2)).toArray =
+        .val (frames.map (·.1), min c nf0, 0) :=
+  Demod.clean_frames_recovered_c19 nf0 a lo pre frames ha hlo hpre hprelen hframes
+
+/-- **clean_frames_recovered_multi_partial** — the sequence statement with PER-TRANSMISSION pulse
+    amplitude and low samples: `tx` lists `(a, lo, m, gap)`; each amplitude in [0.3, 1.4], lows in
+    `[0, a/5)`, `m` a valid upper-case frame, `gap` ≥ 114 samples of noise below `1/5` and below
+    that transmission's `a/5`; lead-in ≥ 200 samples below `1/5` and below every `a/5`.
+    `_process_buffer` returns exactly the frames, in order, for every previous noise floor.
+    (Partial only in the 14 dB vs 10 dB noise hypothesis.) -/
+theorem clean_frames_recovered_multi_partial (nf0 : Rat) (pre : List Rat)
+    (tx : List (Rat × (Nat → Rat) × Msg × List Rat))
+    (hprelen : 200 ≤ pre.length)
+    (hpre : ∀ x ∈ pre, x < 1 / 5 ∧ ∀ t ∈ tx, x < t.1 / 5)
+    (htx : ∀ t ∈ tx, (3 / 10 ≤ t.1 ∧ t.1 ≤ 14 / 10) ∧ (∀ j, 0 ≤ t.2.1 j ∧ t.2.1 j < t.1 / 5) ∧
+      (∀ c ∈ t.2.2.1, c ∈ "0123456789ABCDEF".toList) ∧ checkMsg t.2.2.1 = true ∧
+      114 ≤ t.2.2.2.length ∧ ∀ x ∈ t.2.2.2, x < t.1 / 5 ∧ x < 1 / 5) :
+    ∃ c, calcNoise (pre ++ (tx.flatMap fun t => modulate t.1 t.2.1 (hex2binM t.2.2.1) ++ t.2.2.2)).toArray = .val c ∧
+      processBuffer nf0 (pre ++ (tx.flatMap fun t => modulate t.1 t.2.1 (hex2binM t.2.2.1) ++ t.2.2.2)).toArray =
+        .val (tx.map (·.2.2.1), min c nf0, 0) :=
+  Demod.clean_frames_recovered_multi_c19 nf0 pre tx hprelen hpre htx
+
+/-- hypotheses met (one frame): real DF17 frame at amplitude 0.5 over a 0.05 floor; the result is
+    confirmed independently by evaluating the model (`Demod.exBuf_eval`, no use of the theorem) -/
+example : processBuffer 1000000 (List.replicate 200 (1 / 20) ++
+      modulate (1 / 2) (fun _ => 1 / 20) (hex2binM "8D406B902015A678D4D220AA4BDA".toList) ++
+      List.replicate 10 (1 / 20)).toArray = .val (["8D406B902015A678D4D220AA4BDA".toList], 1 / 20, 0) :=
+  Demod.exBuf_eval
+example : ∃ c, calcNoise Demod.exBuf.toArray = .val c ∧
+    processBuffer 1000000 Demod.exBuf.toArray = .val ([Demod.exMsg], min c 1000000, 0) :=
+  clean_signal_recovered_partial 1000000 (1 / 2) (fun _ => 1 / 20) (List.replicate 200 (1 / 20))
+    (List.replicate 10 (1 / 20)) Demod.exMsg (by decide) (by decide +kernel) (by decide +kernel)
+    (fun _ => by decide +kernel)
+    (fun x hx => by rw [List.eq_of_mem_replicate hx]; decide +kernel)
+    (fun x hx => by rw [List.eq_of_mem_replicate hx]; decide +kernel)
+    (by rw [List.length_replicate])
+
+/-- **snr_10dB_insufficient** — why the 10 dB of the property cannot be proved: the buffer
+    `Demod.noisyBuf` (same frame, amplitude 0.5, EVERY non-pulse sample 0.15) satisfies the
+    property's wording — amplitude in [0.3, 1.4], `3.162 × 0.15 ≤ 0.5` i.e. ≥ 10 dB, valid frame —
+    but not `0.15 < a/5`; the model of `_process_buffer` returns no message for it. -/
+theorem snr_10dB_insufficient :
+    ((3 / 10 : Rat) ≤ 1 / 2 ∧ (1 / 2 : Rat) ≤ 14 / 10 ∧ (3162 / 1000 : Rat) * (3 / 20) ≤ 1 / 2 ∧
+      checkMsg "8D406B902015A678D4D220AA4BDA".toList = true ∧ ¬ ((3 / 20 : Rat) < (1 / 2) / 5)) ∧
+    Demod.noisyBuf = List.replicate 200 (3 / 20) ++
+      modulate (1 / 2) (fun _ => 3 / 20) (hex2binM "8D406B902015A678D4D220AA4BDA".toList) ++
+      List.replicate 10 (3 / 20) ∧
+    processBuffer 1000000 Demod.noisyBuf.toArray = .val ([], 3 / 20, 0) :=
+  ⟨Demod.noisyBuf_meets_10dB, rfl, Demod.noisyBuf_lost⟩
 
 end PyModeS.C19
